@@ -25,9 +25,9 @@ from simkit.rng import seed_globals  # noqa: E402
 from simkit.world import InvalidScenario, Monitor, Violation, result, run_sim  # noqa: E402
 
 PROPERTY = "C11"
-RUNS = {"quick": 3500, "thorough": 400_000}
-WALL = {"quick": 45, "thorough": 1500}
-BATCH = {"quick": 40, "thorough": 200}
+RUNS = {"quick": 3000, "thorough": 300_000}
+WALL = {"quick": 50, "thorough": 1500}
+BATCH = {"quick": 25, "thorough": 200}
 SELFTEST_RUNS = 8
 SHRINK_BUDGET_S = {"quick": 40.0, "thorough": 120.0}
 RULE = (
@@ -35,7 +35,7 @@ RULE = (
     "per-message delays from 0.5% to 40% of the election timeout with stragglers/slow links), a client script (unique commands to "
     "the current self-believed leader or to a fixed node) and, except in the fault-free/liveness classes, a static fault schedule "
     "(partition incl. bridge/asymmetric, crash, pause, loss) plus reactive faults triggered by leader change / accepted command / "
-    "commit; classes: faulty, coarse (= faulty, but the fine breaches of the three recorded defects are only tagged so the run goes on), elections-only, single-candidate, fault-free, liveness; "
+    "commit; every class judges every invariant strictly; classes: faulty (60%, deep: up to 10 static + 16 reactive faults, 15-45 election timeouts long), elections-only, single-candidate, fault-free, liveness; "
     "non-trivial = a leader was elected and (fault classes) at least one fault window actually fired and (classes with clients) "
     "at least one command was committed; distinct = distinct delivery digests (time, event type, target) among non-trivial runs"
 )
@@ -75,19 +75,24 @@ EXPECTED_PROBES = [
     "probe.submitted_entry_overwritten_on_submitter", "probe.future_resolved_ok", "probe.leader_stepped_down",
     "probe.two_self_believed_leaders_different_terms", "probe.submit_to_stale_leader", "probe.candidate_timed_out_again",
     "probe.reactive_fault_fired", "probe.live_all_applied_in_order",
+    "probe.revote_refused_after_same_term_append", "probe.longer_follower_reported_only_what_matched",
+    "probe.future_of_overwritten_submit_left_unresolved", "probe.earlier_term_entry_committed_under_later_term",
+    "probe.same_node_leader_in_two_terms", "probe.five_leader_elections", "probe.next_index_backed_off_3_times",
+    "probe.success_response_of_older_term_reached_leader",
     "fault.partition", "fault.crash", "fault.pause", "fault.loss", "fault.restart",
     "fault.msgs_dropped_by_partition", "fault.msgs_dropped_by_loss", "fault.stragglers",
 ]
 SHRINK_SKIP = ("n_nodes", "cmd", "node_et", "klass", "mode", "tolerate")
 
-# fine breaches of the three recorded defects: tolerated (tagged, not raised) in the "coarse" class so that those runs go on
+# Historical: before the three defects were fixed (repo commits dd03045, 63d1aef, 3e9a003) a "coarse" class tolerated their fine
+# breaches (tagged, not raised).  gen() no longer produces that class; the tags are kept so the pre-fix replays in findings/ still load.
 KNOWN_FINE_TAGS = [
     "vote-once-per-term:after-same-term-AppendEntries",
     "match-index-le-matching-prefix:reported-own-last-index-beyond-appended",
     "future-own-command:index-reused-after-truncation",
 ]
-FAULT_CLASSES = ("faulty", "coarse", "elections-only", "single-candidate")
-MAX_REACTIVE = 10
+FAULT_CLASSES = ("faulty", "coarse", "elections-only", "single-candidate")   # "coarse": only in pre-fix replay files
+MAX_REACTIVE = 16
 NEVER = 1.0e6   # election timeout of nodes that must never become candidates (single-candidate class)
 
 
@@ -106,10 +111,10 @@ def _gen_clients(rng, horizon, et_min, n, count):
     return out
 
 
-def _gen_react(rng, n, et_min, et_max, hb, scale, with_clients):
+def _gen_react(rng, n, et_min, et_max, hb, scale, with_clients, deep=False):
     rules = []
     ons = ["leader", "leader"] + (["append", "append", "commit"] if with_clients else [])
-    for _ in range(rng.choice([0, 1, 1, 2, 3])):
+    for _ in range(rng.choice([1, 2, 2, 3, 4]) if deep else rng.choice([0, 1, 1, 2, 3])):
         on = rng.choice(ons)
         rules.append({
             "on": on,
@@ -124,15 +129,13 @@ def _gen_react(rng, n, et_min, et_max, hb, scale, with_clients):
 
 
 def gen(rng, tier):
-    klass = rng.choices(["faulty", "coarse", "elections-only", "single-candidate", "fault-free", "liveness"],
-                        weights=[28, 22, 10, 10, 14, 16])[0]
-    n = rng.choice([3, 3, 4, 5, 5])
+    klass = rng.choices(["faulty", "elections-only", "single-candidate", "fault-free", "liveness"],
+                        weights=[60, 6, 6, 12, 16])[0]
+    n = rng.choice([3, 3, 4, 5, 5]) if klass != "faulty" else rng.choice([3, 4, 5, 5, 5])
     et_min = rng.choice([0.15, 0.3, 0.5, 1.0])
     sc = {"klass": klass, "mode": "coarse" if klass == "coarse" else "fine", "seed": rng.getrandbits(48),
           "net_seed": rng.getrandbits(48), "n_nodes": n, "faults": [], "react": [], "clients": [], "per_link": {},
           "restart_start": rng.random() < 0.6}
-    if klass == "coarse":
-        sc["tolerate"] = list(KNOWN_FINE_TAGS)
     if klass == "liveness":
         et_max = round(et_min * rng.uniform(2.0, 3.0), 6)
         hb = round(et_min * rng.choice([0.05, 0.1, 0.2, 0.3]), 6)
@@ -164,16 +167,16 @@ def gen(rng, tier):
     elif r < 0.3:     # one slow directed link
         a, b = rng.sample(range(n), 2)
         sc["per_link"][f"n{a}->n{b}"] = {"slow_mult": rng.choice([5.0, 30.0])}
-    horizon = et_max * rng.uniform(10, 30)
+    horizon = et_max * (rng.uniform(15, 45) if klass == "faulty" else rng.uniform(10, 30))
     est = horizon / hb * (n - 1) * 6
-    if est > 22_000:
-        horizon = max(6 * et_max, 22_000 * hb / ((n - 1) * 6))
+    if est > 32_000:
+        horizon = max(8 * et_max, 32_000 * hb / ((n - 1) * 6))
     horizon = round(horizon, 6)
-    sc.update(et_min=et_min, et_max=et_max, hb=hb, horizon=horizon, cap=60_000)
+    sc.update(et_min=et_min, et_max=et_max, hb=hb, horizon=horizon, cap=90_000)
 
     with_clients = klass != "elections-only"
     if with_clients:
-        sc["clients"] = _gen_clients(rng, horizon, et_min, n, rng.randint(3, 24))
+        sc["clients"] = _gen_clients(rng, horizon, et_min, n, rng.randint(5, 36) if klass == "faulty" else rng.randint(3, 24))
     if klass == "single-candidate":
         c = rng.randrange(n)
         sc["node_et"] = [[et_min, et_max] if j == c else [NEVER, NEVER] for j in range(n)]
@@ -184,7 +187,7 @@ def gen(rng, tier):
 
     kinds = rng.choice([("partition", "crash", "pause", "loss"), ("partition",), ("crash", "pause"), ("partition", "loss"),
                         ("partition", "pause"), ("loss", "crash")])
-    faults = gen_faults(rng, n, horizon, kinds=kinds, max_faults=rng.choice([2, 4, 6]),
+    faults = gen_faults(rng, n, horizon, kinds=kinds, max_faults=rng.choice([3, 6, 10]) if klass == "faulty" else rng.choice([2, 4, 6]),
                         min_len=round(0.5 * et_min, 4), max_len_frac=0.3)
     if "partition" in kinds and rng.random() < 0.4:       # bridge: two nodes cannot talk, everybody else reaches both
         a, b = rng.sample(range(n), 2)
@@ -192,7 +195,7 @@ def gen(rng, tier):
         faults.append({"kind": "partition", "a": [a], "b": [b], "start": st,
                        "end": round(st + rng.uniform(et_min, horizon * 0.3), 4), "asym": rng.random() < 0.3})
     sc["faults"] = faults
-    sc["react"] = _gen_react(rng, n, et_min, et_max, hb, scale, with_clients)
+    sc["react"] = _gen_react(rng, n, et_min, et_max, hb, scale, with_clients, deep=klass == "faulty")
     return sc
 
 
@@ -493,7 +496,13 @@ def run(sc):
         except Violation as v:
             sig, msg = v.sig, v.msg
     o = h.oracle
-    counters = dict(h.counters)
+    counters = {}
+    for k, v in h.counters.items():
+        if k.startswith("probe."):
+            counters[k] = int(v > 0)
+            counters["n." + k[6:]] = v
+        else:
+            counters[k] = v
     for k, v in o.probes.items():
         counters["probe." + k] = int(v > 0)      # probes: number of RUNS in which the branch was reached
         counters["n." + k] = v                    # raw occurrence counts
